@@ -216,8 +216,16 @@ def generate(seed, tier):
         ops += ["build r resc 1", "build l low 1 %d" % c, "build g log 1"]
         cur_b = []
         made = set()
+        pre = ""
         for _ in range(rng.randint(3, 14)):
             u = rng.random()
+            if rng.random() < 0.06:
+                # setNamespace on the three objects: full parameter names (setParameters, derivative variables) change
+                pre = rng.choice(["x.", "hmm_", "a.b.", ""])
+                for o in objs:
+                    ops.append("ns %s %s" % (o, pre))
+                if rng.random() < 0.5:
+                    ops.append("names %s" % rng.choice(objs))
             if u < 0.35:
                 # one parameter, same update on all objects
                 which = rng.random() if kind != "stat" else 0.9
@@ -247,7 +255,7 @@ def generate(seed, tier):
                     v = rand_emission(rng, kind) if nm[0] == "e" else rng.choice([0.0, rng.random()])
                     if kind in ("pos", "stat"):
                         v = max(v, 1e-3)
-                    pairs += [nm, h(v)]
+                    pairs += [(pre if rng.random() < 0.95 else "") + nm, h(v)]
                 for o in objs:
                     ops.append("setps %s %s" % (o, " ".join(pairs)))
             elif u < 0.65:
@@ -263,6 +271,7 @@ def generate(seed, tier):
                 ops += posterior_ops(rng, T, cur_b, ["r", "g", "r", "g", "l"])
             elif u < 0.96:
                 var = "e%d_%d" % (rng.randrange(T), rng.randrange(n)) if rng.random() < 0.85 else rng.choice(["p0_0", "f0", "zz"])
+                var = (pre if rng.random() < 0.9 else "") + var
                 o = rng.choice(["r", "r", "r", "g", "g", "l"])
                 dd = rng.choice(["d1", "d1", "d2"])
                 ops.append("%s %s %s" % (dd, o, var))
@@ -411,6 +420,77 @@ def generate(seed, tier):
                 if last and rng.random() < 0.8:
                     ops += ["%s r %s" % last, "%s g %s" % last]
         cases.append(["case deriv%d n=%d T=%d stat" % (i, n, T)] + ops)
+    # ---- ltm: likelihood objects whose transition matrix is a built-in model (derivatives read getPij(), the forward
+    # recursion Pij(i,j) and getEquilibriumFrequencies()); updates of the model's parameters through the likelihood
+    n_ltm = 160 if thorough else 40
+    for i in range(n_ltm):
+        kind = "auto" if i % 2 == 0 else "full"
+        n = rng.choice([1, 2, 2, 3, 3, 4])
+        T = rng.randint(1, {1: 8, 2: 7, 3: 5, 4: 4}[n])
+        ops = ["tm a %s %d" % (kind, n)]
+
+        def tm_update():
+            if kind == "auto":
+                w = rng.random()
+                v = rng.choice([0.0, 1.0, -0.1, 0.95]) if w < 0.08 else rng.uniform(0.05, 0.95)
+                return "lambda%d" % rng.randint(1, n) if rng.random() < 0.95 else "lambda%d" % (n + 1), v
+            w = rng.random()
+            v = rng.choice([0.0, 1.0, 0.5]) if w < 0.08 else rng.uniform(0.1, 0.9)
+            return ("%d.theta%d" % (rng.randint(1, n), rng.randint(1, max(1, n - 1))) if rng.random() < 0.95 else "%d.theta1" % (n + 1)), v
+
+        for _ in range(rng.randint(0, 2)):
+            nm, v = tm_update()
+            ops.append("tmset a %s %s" % (nm, h(v)))
+        if rng.random() < 0.5:
+            ops.append(rng.choice(["tmpij a", "tmeq a", "tmall a pe"]))       # the copy is taken with filled caches
+        E = [10.0 ** (-rng.uniform(0, 3)) for _ in range(n * T)]
+        ops += ["states %d" % n, "emis " + " ".join(h(x) for x in E)]
+        c = rng.randint(1, T + 1)
+        ops += ["buildtm r resc 1 a", "buildtm g log 1 a", "buildtm l low 1 a %d" % c, "agree r l g"]
+        objs = ["r", "g", "l"]
+        pre = ""
+        cur_b = []
+        for _ in range(rng.randint(3, 12)):
+            u = rng.random()
+            if u < 0.3:
+                nm, v = tm_update()
+                for o in objs:
+                    ops.append("setp %s %s %s" % (o, nm, h(v)))
+            elif u < 0.4:
+                nm = "e%d_%d" % (rng.randrange(T), rng.randrange(n))
+                v = 10.0 ** (-rng.uniform(0, 3))
+                for o in objs:
+                    ops.append("setp %s %s %s" % (o, nm, h(v)))
+            elif u < 0.62:
+                var = pre + "e%d_%d" % (rng.randrange(T), rng.randrange(n))
+                dd = rng.choice(["d1", "d2"])
+                ops += ["%s r %s" % (dd, var), "%s g %s" % (dd, var)]
+                if rng.random() < 0.3:
+                    ops.append("%s %s %d" % ("dsite" if dd == "d1" else "d2site", rng.choice(["r", "g"]), edge_site(rng, T, cur_b)))
+            elif u < 0.7:
+                cur_b = rand_breaks(rng, T)
+                for o in objs:
+                    ops.append("brk %s %s" % (o, " ".join(map(str, cur_b))))
+            elif u < 0.8:
+                ops += posterior_ops(rng, T, cur_b, ["r", "g"])
+            elif u < 0.86:
+                ops.append("agree r l g")
+            elif u < 0.91:
+                pre = rng.choice(["x.", "m_", ""])
+                for o in objs:
+                    ops.append("ns %s %s" % (o, pre))
+                ops.append("names %s" % rng.choice(objs))
+            elif u < 0.96:
+                # the objects hold copies: the original model moves on alone
+                nm, v = tm_update()
+                ops += ["tmset a %s %s" % (nm, h(v)), "ll r", "tmall a ep"]
+            else:
+                src = rng.choice(["r", "g"])
+                ops += ["clone %s %s2" % (src, src)]
+                nm, v = tm_update()
+                ops += ["setp %s2 %s %s" % (src, nm, h(v)), "ll %s" % src, "ll %s2" % src, "d1 %s2 %se0_0" % (src, pre)]
+        ops.append("agree r l g")
+        cases.append(["case ltm%d %s n=%d T=%d" % (i, kind, n, T)] + ops)
     # ---- tm: the built-in transition models; every query (getPij, Pij, getEquilibriumFrequencies, all three at
     # once in both orders) interleaved with updates that move one / several / the last / no parameter, clones and
     # assignments
@@ -442,7 +522,7 @@ def generate(seed, tier):
                     r = [rng.random() + 0.05 for _ in range(n)]
                     if rng.random() < 0.05:
                         r[rng.randrange(n)] = 0.0          # a zero entry: theta = 0 or 1 is refused by the constraint
-                    sm = sum(r) * (1.0 if rng.random() < 0.95 else 1.01)   # not summing to one: refused
+                    sm = (sum(r) or 1.0) * (1.0 if rng.random() < 0.95 else 1.01)   # not summing to one: refused
                     P += [x / sm for x in r]
                 return "tmsetP %s %s" % (o, " ".join(h(x) for x in P))
             w = rng.random()
